@@ -332,7 +332,7 @@ theorem pop_singleton (h : Heap) (hi : Inv h) (r : Nat) (c1 : Cyc h [r]) : pop h
   have l := c1.lk
   simp only [Lk, List.headD_cons, List.headD_nil, and_true] at l
   have : h.pv r = r := by have := hi.pn r (c1.bound r (by simp)); rw [l] at this; exact this
-  simp [pop, this]
+  simp [pop_some, this]
 
 theorem pop_any (h : Heap) (hi : Inv h) (r : Nat) (hr : r < h.size) :
     ∃ l, Cyc h (r :: l) ∧ (l = [] → pop h (some r) = h) ∧
@@ -373,7 +373,7 @@ theorem join_any (h : Heap) (hi : Inv h) (r s : Nat) (hr : r < h.size) (hs : s <
       · cases l with
         | nil => simp at e
         | cons q l => simp at e; simp [hnr, e]
-    simp [join, this]
+    simp [join_ss, this]
   · intro m rest e hm
     obtain ⟨m', cc, e'⟩ := exists_snoc m hm
     subst e' e
